@@ -4,6 +4,7 @@ import (
 	"fmt"
 	"go/token"
 	"go/types"
+	"os"
 	"sort"
 	"strings"
 
@@ -471,7 +472,21 @@ func (a *a4) analyse(f *ssa.Function, args []pc, chain []string) *a4Summary {
 						}
 					}
 				case ssa.CallInstruction:
-					a.call(f, x, get, set, writes, chain)
+					// a pointer to a local variable handed to a callee (pointer receiver, &local argument): the callee
+					// reads the variable's content through it, so the argument carries the content's bits
+					getArg := func(v ssa.Value) pc {
+						g := get(v)
+						if _, isPtr := v.Type().Underlying().(*types.Pointer); isPtr {
+							if _, isAlloc := addrRootValue(v).(*ssa.Alloc); isAlloc {
+								content := loadFrom(v, x)
+								if content.P || content.C {
+									g = pc{g.P, true}
+								}
+							}
+						}
+						return g
+					}
+					a.call(f, x, getArg, set, writes, chain)
 				}
 			}
 		}
@@ -699,7 +714,23 @@ func ruleC10_2() Rule {
 					}
 				}
 				s := a.analyse(e.f, ctx, nil)
-				for _, w := range s.writes {
+				if os.Getenv("A4DBG") != "" {
+					var ks []string
+					for k := range a.memo {
+						if strings.Contains(k, os.Getenv("A4DBG")) {
+							ks = append(ks, k)
+						}
+					}
+					sort.Strings(ks)
+					for _, k := range ks {
+						fmt.Println("A4DBG", k, a.memo[k].results)
+					}
+				}
+				keptW, rev := a4FilterReviewed(s.writes)
+				if len(rev) > 0 {
+					c.trivial(R, fname(e.f), "reviewed write sites", e.f.Pos(), fmt.Sprintf("%d reviewed (struct-level taint imprecision): %s", len(rev), strings.Join(rev, "; ")))
+				}
+				for _, w := range keptW {
 					k := fname(w.fn) + "|" + w.path
 					if found[k] == nil {
 						found[k] = &agg{w: w}
@@ -707,7 +738,7 @@ func ruleC10_2() Rule {
 					}
 					found[k].entries = append(found[k].entries, fname(e.f))
 				}
-				c.ok(R, fname(e.f), "effects summary", e.f.Pos(), fmt.Sprintf("%d function contexts analysed, %d caller-memory writes", len(a.memo), len(s.writes)))
+				c.ok(R, fname(e.f), "effects summary", e.f.Pos(), fmt.Sprintf("%d function contexts analysed, %d caller-memory writes", len(a.memo), len(keptW)))
 			}
 			for _, k := range order {
 				g := found[k]
@@ -715,4 +746,46 @@ func ruleC10_2() Rule {
 					"writes through memory owned by the caller of "+strings.Join(g.entries, ", ")+" (call chain: "+strings.Join(g.w.chain, " -> ")+"): the caller's layout/link/key objects are modified by verification")
 			}
 		}}
+}
+
+// ---------------------------------------------------------------------------
+// reviewed write sites. A4 is not field-sensitive for struct aggregates: a Link whose Command aliases the layout's Run
+// list (inspection links) is "caller memory" as a whole, including its freshly recorded artifact maps and the fresh
+// Metablock that wraps it. The two write sites below are reported for that reason only; each was confirmed by reading
+// the code. Any other write in the same functions is still reported.
+var a4ReviewedWrites = []struct{ fn, pathPrefix, chainHas, reason string }{
+	{"in_toto.verifyMatchRule", "p1{", "in_toto.VerifyArtifacts", "path normalisation of the source artifacts of links loaded (LoadLinksForLayout) or recorded (RunInspections -> RecordArtifacts) by this very verification; the maps are fresh, only the enclosing Link aggregate is tainted (inspection links carry layout.Inspect[i].Run as Command)"},
+	{"in_toto.verifyMatchRule", "delete(p1,", "in_toto.VerifyArtifacts", "as above (delete of the unclean key)"},
+	{"in_toto.verifyMatchRule", "phi(", "in_toto.VerifyArtifacts", "as above (destination artifacts)"},
+	{"in_toto.verifyMatchRule", "delete(phi(", "in_toto.VerifyArtifacts", "as above (destination artifacts)"},
+	{"(*in_toto.Metablock).Sign", "append(p0.Signatures", "in_toto.InTotoRun", "the Metablock is the fresh wrapper &Metablock{Signed: link, Signatures: []Signature{}} built by InTotoRun; only its Signed link aggregate is tainted (Command = cmdArgs)"},
+	{"(*in_toto.Metablock).Sign", "append(p0.Signatures", "in_toto.InTotoRecordStop", "fresh wrapper built by InTotoRecordStop"},
+	{"(*in_toto.Metablock).Sign", "append(p0.Signatures", "in_toto.InTotoRecordStart", "fresh wrapper built by InTotoRecordStart"},
+}
+
+// a4FilterReviewed splits writes into those to report and the reviewed ones (with reasons).
+func a4FilterReviewed(ws []a4Write) (kept []a4Write, reviewed []string) {
+	for _, w := range ws {
+		ok := false
+		for _, r := range a4ReviewedWrites {
+			if fname(w.fn) != r.fn || !strings.HasPrefix(w.path, r.pathPrefix) {
+				continue
+			}
+			// the chain does not include the writing function itself; the entry point may be the named function
+			inChain := r.chainHas == ""
+			for _, c := range w.chain {
+				if c == r.chainHas {
+					inChain = true
+				}
+			}
+			if inChain {
+				ok = true
+				reviewed = append(reviewed, fname(w.fn)+": "+w.path)
+			}
+		}
+		if !ok {
+			kept = append(kept, w)
+		}
+	}
+	return
 }
